@@ -76,7 +76,22 @@ func (g *G) genContacts() {
 		nu := t.Weighted("nurns", 1, 5, 3, 1, 1)
 		for j := 0; j < nu; j++ {
 			sc := schemes[t.Weighted("urnscheme", 10, 4, 4, 2, 2, 2, 1, 1)]
-			c.URNs = append(c.URNs, fmt.Sprintf("%s|%d|%v", sc, j+i*2, (sc == "facebook" || sc == "telegram") && t.Chance("urndisplay", 1, 2)))
+			// some URNs already have an affinity to a channel that takes their scheme
+			aff := -1
+			if t.Chance("urn_affinity", 1, 3) {
+				var ok []int
+				for ci, ch := range s.Channels {
+					for _, sch := range ch.Schemes {
+						if sch == sc {
+							ok = append(ok, ci)
+						}
+					}
+				}
+				if len(ok) > 0 {
+					aff = ok[t.Pick("urn_affinity_channel", len(ok))]
+				}
+			}
+			c.URNs = append(c.URNs, fmt.Sprintf("%s|%d|%v|%d", sc, j+i*2, (sc == "facebook" || sc == "telegram") && t.Chance("urndisplay", 1, 2), aff))
 		}
 		// fields
 		for _, f := range s.Fields {
@@ -141,7 +156,20 @@ func (s *Scenario) ContactJSON(c *ContactSpec, set int) J {
 		sc = parts[0]
 		fmt.Sscanf(parts[1], "%d", &k)
 		d = parts[2] == "true"
-		urns = append(urns, URNFor(sc, k, set, d))
+		ur := URNFor(sc, k, set, d)
+		if len(parts) > 3 {
+			var aff int
+			fmt.Sscanf(parts[3], "%d", &aff)
+			if aff >= 0 && aff < len(s.Channels) {
+				// the query part comes before the display fragment
+				if i := strings.Index(ur, "#"); i >= 0 {
+					ur = ur[:i] + "?channel=" + s.Channels[aff].UUID + ur[i:]
+				} else {
+					ur += "?channel=" + s.Channels[aff].UUID
+				}
+			}
+		}
+		urns = append(urns, ur)
 	}
 	if len(urns) > 0 {
 		j["urns"] = urns
